@@ -38,7 +38,7 @@ func (c call) String() string {
 
 func (c call) isTwoArg() bool {
 	switch c.Op {
-	case "Copy", "CopyToFile", "CopyToDirectory", "Move":
+	case "Copy", "CopyToFile", "CopyToDirectory", "Move", "MoveBetweenFS":
 		return true
 	}
 	return false
@@ -54,7 +54,7 @@ func (c call) isCopy() bool {
 
 func (c call) mutating() bool {
 	switch c.Op {
-	case "WriteFile", "Create", "MkDir", "Touch", "Rm", "CleanDir", "Copy", "CopyToFile", "CopyToDirectory", "Move":
+	case "WriteFile", "Create", "MkDir", "Touch", "Rm", "CleanDir", "Copy", "CopyToFile", "CopyToDirectory", "Move", "MoveBetweenFS":
 		return true
 	}
 	return false
@@ -63,7 +63,7 @@ func (c call) mutating() bool {
 // takesContext: the call is executed through its ...WithContext form, so a cancellation point can be injected.
 func (c call) takesContext() bool {
 	switch c.Op {
-	case "WriteFile", "Rm", "CleanDir", "Copy", "CopyToFile", "CopyToDirectory", "Move", "ReadFile", "LsRecursive", "ListDirTree", "SubDirectories", "FileHash":
+	case "WriteFile", "Rm", "CleanDir", "Copy", "CopyToFile", "CopyToDirectory", "Move", "MoveBetweenFS", "ReadFile", "LsRecursive", "ListDirTree", "SubDirectories", "FileHash":
 		return true
 	}
 	return false
@@ -88,6 +88,17 @@ func buildAlphabet() []call {
 		for _, s := range relPaths {
 			for _, d := range relPaths {
 				l = append(l, call{Op: op, A: s, B: d})
+			}
+		}
+	}
+	// the package-level move between two filesystem objects, given the same object twice (a copy followed by the removal
+	// of the source), for source and destination designating the same entry, spelt alike or not: nothing may change. The
+	// other pairs are left out: the function is copy-then-remove, the copies are in the alphabet, and on the in-memory
+	// backend its results differ from the OS backend's in the ways listed as known findings for Copy.
+	for _, s := range relPaths {
+		for _, d := range relPaths {
+			if !parseArg(s).Empty && parseArg(s).P == parseArg(d).P {
+				l = append(l, call{Op: "MoveBetweenFS", A: s, B: d})
 			}
 		}
 	}
@@ -223,6 +234,8 @@ func (b *backend) invoke(ctx context.Context, c call) (val string, err error) {
 		return "", fs.CopyToDirectoryWithContext(ctx, p, b.abs(c.B))
 	case "Move":
 		return "", fs.MoveWithContext(ctx, p, b.abs(c.B))
+	case "MoveBetweenFS":
+		return "", filesystem.MoveBetweenFS(ctx, fs, p, fs, b.abs(c.B))
 	case "ReadFile":
 		data, err := fs.ReadFileWithContext(ctx, p)
 		return fmt.Sprintf("%q", string(data)), err
